@@ -140,6 +140,19 @@ def replay(path):
     with open(path) as f:
         rec = json.load(f)
     case = rec["case"]
+    if "tree" in case:
+        from ..txwork import replay_printers
+
+        what = replay_printers(case)
+        print(what)
+        if what:
+            print(f"VIOLATION property=C06 replay={path}")
+            return 1
+        print("the recorded tree no longer violates the property")
+        return 0
+    if "program" not in case:
+        print("recorded case (re-run the check to re-evaluate it):", json.dumps(case)[:1500])
+        return 0
     cap = case.get("capacity", "default")
     os.environ["TENSORA_VERIF_INITIAL_CAPACITY"] = "" if cap == "default" else str(cap)
     spec = (case["program"], case["formats"])
